@@ -348,3 +348,19 @@ def bulk_oracle(line, out):
     if got != want:
         return "bulk derivation over %s differs from the single requests" % ((a, b, st),)
     return None
+
+
+def hex_blank_variants(rng, hexstr, many=False):
+    """the hex text with ASCII white space where bytes.fromhex tolerates it (between byte pairs, in front, behind): a
+    trailing newline / CR LF, surrounding blanks, a byte-per-group dump, and spreads of exactly 8 / 16 / 24 / 32 blanks
+    (so that the CHARACTER count is again a multiple of eight) — the bytes are the same bytes"""
+    pairs = [hexstr[i:i + 2] for i in range(0, len(hexstr), 2)]
+    out = [hexstr + "\n", hexstr + "\r\n", " " + hexstr, "  " + hexstr + "  ", "\t" + hexstr, " ".join(pairs),
+           " ".join(pairs) + "\n", hexstr.upper() + " "]
+    for k in (8, 16, 24, 32):
+        if len(pairs) > 1:
+            gaps = [0] * (len(pairs) + 1)
+            for _ in range(k):
+                gaps[rng.randrange(len(gaps))] += 1
+            out.append("".join(" " * g + p for g, p in zip(gaps, pairs)) + " " * gaps[-1])
+    return out if many else [out[0], out[1], out[3], out[5], out[6]] + rng.sample(out[8:], min(2, len(out[8:])))
